@@ -681,8 +681,8 @@ pub fn runs_for(prop: &str, thorough: bool) -> u64 {
             return n;
         }
     }
-    let quick = if prop == "C15" { 60_000 } else { 24_000 };
-    if thorough { quick * 30 } else { quick }
+    let quick = if prop == "C15" { 180_000 } else { 150_000 };
+    if thorough { quick * 12 } else { quick }
 }
 
 pub fn check_conc(prop: &str, thorough: bool) -> i32 {
@@ -727,7 +727,7 @@ pub fn check_conc(prop: &str, thorough: bool) -> i32 {
     if prop == "C15" {
         // second part: lock-order edges harvested from single-client histories; an edge against the documented order that is
         // not a listed finding is turned into a concrete deadlock by a directed schedule search (or noted as unconfirmed)
-        let hruns = if thorough { 400_000 } else { 24_000 };
+        let hruns = if thorough { 600_000 } else { 48_000 };
         let hspec = CheckSpec { prop: "C15", thorough, worker_cmd: "hist-worker", total: std::env::var("VERIF_RUNS").ok().and_then(|v| v.parse().ok()).unwrap_or(hruns), level: "exploration", rule: "", assumptions: vec![] };
         let (htotal, hcrashes) = spawn_workers(&hspec, base);
         for (seed, msg) in &hcrashes {
